@@ -845,6 +845,21 @@ func safeMetaKey(p *Prog, key *Term) (bool, string) {
 		return s == "" || strings.Contains(s, "..") || strings.HasPrefix(s, "/")
 	}
 	k := key.unconv()
+	// a key built by a helper of the repository: every value the helper can return, with its
+	// parameters bound to this call's arguments
+	if k.Op == "call" && !k.IsCall("fmt.Sprintf") {
+		if rs := p.ReturnTerms(k); len(rs) > 0 {
+			why := ""
+			for _, r := range rs {
+				ok, w := safeMetaKey(p, r)
+				if !ok {
+					return false, w
+				}
+				why = w
+			}
+			return true, why
+		}
+	}
 	switch {
 	case k.Op == "const":
 		var s string
